@@ -325,6 +325,21 @@ def _bounded_trs(tier, seed):
         distinct.add(('partial', want))
         if got != want:
             bad({'fn': 'from_twprgesec', 'args': [a, b, c]}, got, want)
+    # components given as ints / bare digits take the default directions in force at the time of the call, whichever constructor is used
+    from pytrs.parser.config import MasterConfig
+    old_defaults = (MasterConfig.default_ns, MasterConfig.default_ew)
+    try:
+        for dns, dew in (('s', 'e'), ('n', 'e'), ('s', 'w'), ('n', 'w')):
+            MasterConfig.default_ns, MasterConfig.default_ew = dns, dew
+            for a, b, c in ((154, 97, 14), ('7', '2', '1'), (0, 0, 0), ('154', 97, None)):
+                want = f"{int(a)}{dns}{int(b)}{dew}" + ('__' if c is None else f"{int(c):02d}")
+                for fn, got in (('construct_trs', TRS.construct_trs(a, b, c)), ('from_twprgesec', TRS.from_twprgesec(a, b, c).trs)):
+                    ev += 1
+                    distinct.add(('defaults', fn, dns, dew, str(a)))
+                    if got != want:
+                        bad({'fn': fn, 'args': [a, b, c], 'MasterConfig defaults': [dns, dew]}, got, want)
+    finally:
+        MasterConfig.default_ns, MasterConfig.default_ew = old_defaults
     return {'evaluations': ev, 'distinct_nontrivial': len(distinct), 'violations': violations, 'samples': samples,
             'exhaustive': False,
             'bound': f"twp/rge in {nums} x sections x 5 input encodings; {len(muts)} single-edit mutations of {len(bases)} valid strings",
